@@ -1,7 +1,7 @@
 """C11 — magnitude, distance, normalisation, angle and projection are consistent."""
 import algebra as A
 from algebra import El, ZERO, ONE
-from core import (Harness, VEC, PNT, sv, sq, ss, Run, Conv, run_specs, report_dropped, ret_leaves, cmp_struct, single_ret, flat)
+from core import (check_defined, Harness, VEC, PNT, sv, sq, ss, Run, Conv, run_specs, report_dropped, ret_leaves, cmp_struct, single_ret, flat)
 import facts
 import specs
 
@@ -72,6 +72,7 @@ def check_normalize_to(run, S, name, spec, kw):
         return
     for i in range(n):
         run.ob('%s:parallel:%d' % (key, i), A.eq(got[i] * sigma, u[i] * m), rule='K3: normalize_to(v, m) = (m/|v|) v  (a positive multiple of v for m > 0)', expected=A.show((u[i] * m / sigma).norm()), found=A.show(got[i].norm()), where=where)
+    check_defined(run, key, got, [A.dot(u, u)], where)
     l2 = A.dot(got, got)
     run.ob(key + ':length', A.eq(l2, m * m), rule='K4: |normalize_to(v, m)|^2 = m^2', expected='m^2', found=A.show(l2.norm()), where=where)
     k = (got[0] * sigma * A.inv(u[0])) if not u[0].zero() else None
@@ -129,6 +130,7 @@ def check_angle(run, S, name, spec, kw):
     ac = fn_args(S, cv, leaf['v'], 'acos')
     at = fn_args(S, cv, leaf['v'], 'atan2')
     if ac is not None:
+        check_defined(run, key, ac, [A.dot(u, u), A.dot(v, v)], where)
         ok = A.eq(ac[0] * su * svv, uv)
         run.ob(key + ':acos', ok and n != 2, rule='K3 + range lemma acos in [0, pi]', expected='acos((u.v)/(|u||v|)): |u||v|cos(angle) = u.v, range [0, pi], symmetric' + (' - but dimension 2 needs the signed angle' if n == 2 else ''),
                found=S.showval(leaf['v'])[:200], where=where)
@@ -137,6 +139,7 @@ def check_angle(run, S, name, spec, kw):
         run.ob(key + ':form', False, rule='K3', expected='acos(..) or atan2(.., ..) of the radian measure', found=S.showval(leaf['v'])[:200], where=where)
         return
     Y, X = at
+    check_defined(run, key, [Y, X], [A.dot(u, u), A.dot(v, v)], where)
     # X = k (u.v), X^2 + Y^2 = k^2 |u|^2 |v|^2 with k > 0
     k = None
     for cand in (ONE,):
